@@ -102,6 +102,9 @@ func icsTransfer(k transferkeeper.Keeper, goCtx context.Context, m *transfertype
 	if ics.fail {
 		return nil, errors.New("transfer module refused")
 	}
+	if m.TimeoutHeight.IsZero() && m.TimeoutTimestamp == 0 { // IBC core refuses a packet that can never time out
+		return nil, errors.New("packet timeout height and packet timeout timestamp cannot both be 0")
+	}
 	// Haqq's wrapper around the IBC transfer keeper: a registered ERC20 alias of a coin is rewritten to the coin's own
 	// denomination in the message before the transfer proper (x/ibc/transfer/keeper/msg_server.go)
 	if to, ok := ics.alias[m.Token.Denom]; ok {
@@ -259,7 +262,15 @@ func VerifC04_Ics20() {
 		panic(err)
 	}
 	snap := db.Snapshot()
-	args := []interface{}{"transfer", channel, "aISLM", amt.BigInt(), sender, icsReceiver, clienttypes.NewHeight(1, 100), uint64(0), "memo"}
+	// the timeout of the call: a height, a timestamp, or neither (which the IBC module refuses for the native message)
+	toH, toTS := clienttypes.NewHeight(1, 100), uint64(0)
+	switch zz.Choose("timeout", 3) {
+	case 1:
+		toH, toTS = clienttypes.NewHeight(0, 0), 1800000000000000000
+	case 2:
+		toH, toTS = clienttypes.NewHeight(0, 0), 0
+	}
+	args := []interface{}{"transfer", channel, "aISLM", amt.BigInt(), sender, icsReceiver, toH, toTS, "memo"}
 	_, err := p.Transfer(ctx, icsOrigin, &vm.Contract{CallerAddress: caller}, db, icsMethod, args)
 	if err != nil {
 		zz.Assert(len(ics.msgs) == 0, "a failed call does not reach the transfer module")
@@ -275,7 +286,7 @@ func VerifC04_Ics20() {
 		zz.Assert(len(ics.msgs) == 1, "exactly one message reaches the transfer module")
 		m := ics.msgs[0]
 		zz.Assert(m.SourcePort == "transfer" && m.SourceChannel == channel && m.Token.Denom == "aISLM" && m.Token.Amount.Equal(amt) &&
-			m.Receiver == icsReceiver && m.Memo == "memo" && m.TimeoutTimestamp == 0 && m.TimeoutHeight.RevisionNumber == 1 && m.TimeoutHeight.RevisionHeight == 100,
+			m.Receiver == icsReceiver && m.Memo == "memo" && m.TimeoutTimestamp == toTS && m.TimeoutHeight.RevisionNumber == toH.RevisionNumber && m.TimeoutHeight.RevisionHeight == toH.RevisionHeight,
 			"port, channel, token, receiver, timeout and memo are those of the call")
 		zz.Assert(m.Sender == sdk.AccAddress(sender.Bytes()).String(), "the sender of the native message is the named account")
 		// C04
